@@ -14,6 +14,34 @@ use std::process::{Child, ChildStdin, ChildStdout, Command, Stdio};
 
 pub const WORKER_STACK: usize = 8 << 20;
 
+/// Wall-clock limit for one request (seconds); a worker that does not answer
+/// in time is killed and the request reported as `Died("timeout …")`.
+pub fn request_timeout_s() -> i32 {
+    std::env::var("VP_WORKER_TIMEOUT_S")
+        .ok()
+        .and_then(|s| s.parse().ok())
+        .unwrap_or(60)
+}
+
+/// Wait until `fd` is readable or the timeout expires.
+fn wait_readable(fd: i32, timeout_s: i32) -> bool {
+    let mut p = libc::pollfd {
+        fd,
+        events: libc::POLLIN,
+        revents: 0,
+    };
+    loop {
+        let r = unsafe { libc::poll(&mut p, 1, timeout_s.saturating_mul(1000)) };
+        if r < 0 {
+            if std::io::Error::last_os_error().kind() == std::io::ErrorKind::Interrupted {
+                continue;
+            }
+            return true; // let read report the error
+        }
+        return r > 0;
+    }
+}
+
 /// Call first in `main`: when started as a worker, serve requests and exit.
 pub fn serve_if_worker(handler: fn(&Value) -> Value) {
     let args: Vec<String> = std::env::args().collect();
@@ -81,6 +109,18 @@ fn spawn() -> std::io::Result<Proc> {
     })
 }
 
+/// Read one reply line with the request timeout; on timeout the child is killed.
+fn read_line_timeout(p: &mut Proc, buf: &mut String) -> usize {
+    use std::os::fd::AsRawFd;
+    let fd = p.stdout.get_ref().as_raw_fd();
+    if p.stdout.buffer().is_empty() && !wait_readable(fd, request_timeout_s()) {
+        let _ = p.child.kill();
+        buf.push_str("TIMEOUT");
+        return 0;
+    }
+    p.stdout.read_line(buf).unwrap_or(0)
+}
+
 #[derive(Debug, Clone)]
 pub enum Reply {
     Ok(Value),
@@ -90,6 +130,11 @@ pub enum Reply {
 
 /// Send one request to this thread's worker and wait for the reply.
 pub fn call(req: &Value) -> Reply {
+    call_t(req, request_timeout_s())
+}
+
+/// Like `call` with an explicit reply timeout in seconds.
+pub fn call_t(req: &Value, timeout_s: i32) -> Reply {
     PROC.with(|cell| {
         let mut slot = cell.borrow_mut();
         if slot.is_none() {
@@ -102,8 +147,17 @@ pub fn call(req: &Value) -> Reply {
         let line = format!("{}\n", req);
         let sent = p.stdin.write_all(line.as_bytes()).and_then(|_| p.stdin.flush());
         let mut buf = String::new();
+        let mut timed_out = false;
         let got = if sent.is_ok() {
-            p.stdout.read_line(&mut buf).unwrap_or(0)
+            use std::os::fd::AsRawFd;
+            let fd = p.stdout.get_ref().as_raw_fd();
+            if p.stdout.buffer().is_empty() && !wait_readable(fd, timeout_s) {
+                timed_out = true;
+                let _ = p.child.kill();
+                0
+            } else {
+                p.stdout.read_line(&mut buf).unwrap_or(0)
+            }
         } else {
             0
         };
@@ -114,7 +168,11 @@ pub fn call(req: &Value) -> Reply {
                 .map(|s| format!("{s}"))
                 .unwrap_or_else(|e| format!("wait failed: {e}"));
             *slot = None;
-            return Reply::Died(status);
+            return Reply::Died(if timed_out {
+                format!("timeout: no answer within {timeout_s} s (killed)")
+            } else {
+                status
+            });
         }
         match serde_json::from_str::<Value>(&buf) {
             Ok(v) => Reply::Ok(v),
@@ -138,10 +196,13 @@ pub fn call_fresh(req: &Value) -> Reply {
     let line = format!("{}\n", req);
     let _ = p.stdin.write_all(line.as_bytes()).and_then(|_| p.stdin.flush());
     let mut buf = String::new();
-    let got = p.stdout.read_line(&mut buf).unwrap_or(0);
+    let got = read_line_timeout(&mut p, &mut buf);
     drop(p.stdin);
     let status = p.child.wait();
     if got == 0 {
+        if buf == "TIMEOUT" {
+            return Reply::Died(format!("timeout: no answer within {} s (killed)", request_timeout_s()));
+        }
         return Reply::Died(
             status
                 .map(|s| format!("{s}"))
@@ -165,14 +226,18 @@ pub fn call_history(reqs: &[Value]) -> Vec<Reply> {
         let line = format!("{}\n", req);
         let _ = p.stdin.write_all(line.as_bytes()).and_then(|_| p.stdin.flush());
         let mut buf = String::new();
-        let got = p.stdout.read_line(&mut buf).unwrap_or(0);
+        let got = read_line_timeout(&mut p, &mut buf);
         if got == 0 {
             let status = p
                 .child
                 .wait()
                 .map(|s| format!("{s}"))
                 .unwrap_or_else(|e| format!("wait failed: {e}"));
-            out.push(Reply::Died(status));
+            out.push(Reply::Died(if buf == "TIMEOUT" {
+                format!("timeout: no answer within {} s (killed)", request_timeout_s())
+            } else {
+                status
+            }));
             return out;
         }
         match serde_json::from_str::<Value>(&buf) {
